@@ -94,7 +94,7 @@ fn choice_points(log: &[IterEvent]) -> Vec<IterEvent> {
 }
 
 fn perms_for(n: usize, full: bool) -> (Vec<Perm>, bool) {
-    let fact = |n: usize| (1..=n).product::<usize>();
+    let fact = |n: usize| (1..=n).fold(1usize, |a, b| a.saturating_mul(b));
     if n <= 4 || (full && n <= 5) {
         ((1..fact(n)).map(Perm::Nth).collect(), false)
     } else {
@@ -103,7 +103,9 @@ fn perms_for(n: usize, full: bool) -> (Vec<Perm>, bool) {
             v.push(Perm::Rotate(k));
         }
         // a few more structured permutations: swap of the first two, of the last two
-        v.push(Perm::Nth(fact(n - 1).min(usize::MAX / 2))); // moves the 2nd entry to the front
+        if n <= 20 {
+            v.push(Perm::Nth(fact(n - 1))); // moves the 2nd entry to the front
+        }
         (v, true)
     }
 }
